@@ -37,7 +37,7 @@ def check_single(prog, rep, profile, op, rule="pipeline"):
         rep.analysis_error(rule, inst, e, b.where())
         return []
     want = [(ev, r) for ev, r, n in pl.spec_paths(sp.SPECS[(profile, op)], ("input",))]
-    d = pl.diff_paths(paths, want)
+    d = pl.diff_paths(pl.commute_empty(paths), want)
     rep.ob(rule, inst, not d, "; ".join(d), b.where(), key="%s|%s" % (rule, inst), sample=True)
     rep.sample({"pipeline": inst, "extracted": pl.steps_of(paths), "paths": len(paths)})
     return paths
@@ -60,7 +60,7 @@ def check_compare(prog, rep, profile, rule="compare"):
         rep.analysis_error(rule, inst, e, b.where())
         return []
     want = pl.spec_compare_paths(sp.SPECS[(profile, "enforce")])
-    d = pl.diff_paths(paths, want)
+    d = pl.diff_paths(pl.commute_empty(paths), want)
     rep.ob(rule, inst, not d, "; ".join(d), b.where(), key="%s|%s" % (rule, inst), sample=True)
     rep.sample({"pipeline": inst, "paths": len(paths)})
     return paths
